@@ -317,7 +317,7 @@ def _add_alias_to_scope(name_ir, table, scope, alias, visibility, errors):
 def _resolve_head_of_field_reference(
     field_reference, table, current_scope, visible_scopes, source_file_name, errors
 ):
-    return _resolve_reference(
+    _resolve_reference(
         field_reference.path[0],
         table,
         current_scope,
@@ -325,6 +325,21 @@ def _resolve_head_of_field_reference(
         source_file_name,
         errors,
     )
+    head = ir_data_utils.reader(field_reference.path[0])
+    if head.has_field("canonical_name") and not head.canonical_name.object_path:
+        # The name of an import resolves to the imported module itself, which is
+        # not a value.
+        errors.append(
+            [
+                error.error(
+                    source_file_name,
+                    head.source_location,
+                    "'{}' is an imported module, not a field.".format(
+                        head.source_name[0].text
+                    ),
+                )
+            ]
+        )
 
 
 def _resolve_reference(
